@@ -194,6 +194,9 @@ func c12cRun(l c12cLimit) (o c12cObs) {
 	s, err = h1.NewStream(actx, h2.ID(), protoID)
 	acancel()
 	if err != nil {
+		// (real time, loaded machine: a stream open that allows limited connections and still fails is treated as a
+		// run without a verdict and repeated; a tree on which it always fails ends as a cap, never as a verdict)
+		o.Infra = "stream open with WithAllowLimitedConn failed: " + err.Error()
 		o.AllowStream = err.Error()
 	} else {
 		o.AllowStream = "opened"
